@@ -4341,7 +4341,7 @@ class Builder(object):
 
         return (path, index)
 
-    def parseRelation(self, tokens, index, framername=''):
+    def parseRelation(self, tokens, index, framername='', depth=0):
         """
         Parse optional relation clause of relative data address
 
@@ -4383,6 +4383,10 @@ class Builder(object):
 
         """
         relation = '' #default relation if none given
+        if depth > 3:  # actor of frame of framer is the deepest valid nesting
+            msg = "ParseError: Too many nested relations"
+            raise excepting.ParseError(msg, tokens, index)
+
         if index < len(tokens): #are there more tokens
             connective = tokens[index]
             if connective == 'of': #of means relation given
@@ -4444,7 +4448,8 @@ class Builder(object):
 
                 framerRelation, index = self.parseRelation(tokens,
                                                            index,
-                                                           framername=framername)
+                                                           framername=framername,
+                                                           depth=depth + 1)
 
                 # check if spurious, of frame or, of actor
                 if (framerRelation and
@@ -4481,7 +4486,7 @@ class Builder(object):
                 relation += '.' + name  #append name
 
                 # parse optional of frame and hence framer relation
-                frameRelation, index = self.parseRelation(tokens, index)
+                frameRelation, index = self.parseRelation(tokens, index, depth=depth + 1)
 
                 # check if spurious, of framer or, of actor
                 if (frameRelation and
